@@ -494,6 +494,59 @@ fn uint_ops_more<const N: usize>(v: &mut Vec<Op>) {
     op!(v, "monty-arith", format!("monty/lincomb_vartime(public modulus, secret operands)/U{}", 64 * N), [Arg::Below(N, Ref::P(0)), Arg::Below(N, Ref::P(0)), Arg::Below(N, Ref::P(0)), Arg::Below(N, Ref::P(0))], [Arg::OddGe3(N)], lincomb::<N>);
 }
 
+/// the cheap families only, for the widest instantiations (thorough tier)
+fn uint_ops_light<const N: usize>(v: &mut Vec<Op>) {
+    let b = 64 * N as u64;
+    let nm = |s: &str| format!("uint/{s}/U{}", 64 * N);
+    #[inline(never)]
+    fn addsub<const N: usize>(i: &Inputs) {
+        let (a, b) = (u::<N>(&i.s[0]), u::<N>(&i.s[1]));
+        let c = Limb(i.s[2][0] & 1);
+        sink((a.adc(&b, c), a.sbb(&b, Limb(0u64.wrapping_sub(c.0))), a.checked_add(&b), a.checked_sub(&b), a.wrapping_neg()));
+    }
+    op!(v, "uint-addsub", nm("add+sub+neg"), [Arg::Any(N), Arg::Any(N), Arg::Bit], [], addsub::<N>);
+    #[inline(never)]
+    fn mul<const N: usize>(i: &Inputs) {
+        let (a, b) = (u::<N>(&i.s[0]), u::<N>(&i.s[1]));
+        sink((a.split_mul(&b), a.square_wide()));
+    }
+    op!(v, "uint-mul", nm("mul+square"), [Arg::Any(N), Arg::Any(N)], [], mul::<N>);
+    #[inline(never)]
+    fn cmp<const N: usize>(i: &Inputs) {
+        let (a, b) = (u::<N>(&i.s[0]), u::<N>(&i.s[1]));
+        sink((a.ct_eq(&b), a.ct_lt(&b), a.ct_gt(&b), Ord::cmp(&a, &b), a.is_zero()));
+        sink(Uint::conditional_select(&a, &b, sub_choice(i.s[2][0])));
+    }
+    op!(v, "uint-cmp", nm("cmp+select"), [Arg::Any(N), Arg::Any(N), Arg::Bit], [], cmp::<N>);
+    #[inline(never)]
+    fn bits<const N: usize>(i: &Inputs) {
+        let a = u::<N>(&i.s[0]);
+        sink((a.bits(), a.leading_zeros(), a.trailing_zeros(), a.trailing_ones(), a.bit(i.s[1][0] as u32)));
+    }
+    op!(v, "uint-bits", nm("bits+zeros+bit"), [Arg::Any(N), Arg::UpTo(b - 1)], [], bits::<N>);
+    #[inline(never)]
+    fn shift_ct<const N: usize>(i: &Inputs) {
+        let a = u::<N>(&i.s[0]);
+        let s = i.s[1][0] as u32;
+        sink((a.overflowing_shl(s), a.overflowing_shr(s)));
+    }
+    op!(v, "uint-shift", nm("shl+shr(secret shift incl. >= BITS)"), [Arg::Any(N), Arg::UpTo(2 * b + 1)], [], shift_ct::<N>);
+    #[inline(never)]
+    fn modadd<const N: usize>(i: &Inputs) {
+        let p = u::<N>(&i.s[0]);
+        let (a, b) = (u::<N>(&i.s[1]), u::<N>(&i.s[2]));
+        sink((a.add_mod(&b, &p), a.sub_mod(&b, &p), a.neg_mod(&p)));
+    }
+    op!(v, "uint-mod", nm("add_mod+sub_mod+neg_mod(secret modulus)"), [Arg::NonZero(N), Arg::Below(N, Ref::S(0)), Arg::Below(N, Ref::S(0))], [], modadd::<N>);
+    #[inline(never)]
+    fn div_rem<const N: usize>(i: &Inputs) {
+        let a = u::<N>(&i.s[0]);
+        let d = NonZero::new(u::<N>(&i.s[1])).unwrap();
+        sink(a.div_rem(&d));
+    }
+    op!(v, "uint-div", nm("div_rem(secret divisor)"), [Arg::Any(N), Arg::NonZero(N)], [], div_rem::<N>);
+}
+
 /// operations that exist only for the alias sizes (safegcd inverter, Concat)
 macro_rules! uint_alias_ops {
     ($v:ident; $($n:literal),*) => { $( {
@@ -912,6 +965,8 @@ pub fn ops(thorough: bool) -> Vec<Op> {
         uint_ops::<32>(&mut v);
         uint_ops_more::<3>(&mut v);
         uint_ops_more::<16>(&mut v);
+        uint_ops_light::<64>(&mut v);
+        uint_ops_light::<128>(&mut v);
         uint_encoding_ops!(v; (3, U192), (16, U1024), (32, U2048));
         uint_alias_ops!(v; 8, 16);
         uint_mulmod_ops!(v; 8, 16);
